@@ -173,6 +173,24 @@ func scenarioC03(r *Run) {
 		r.YieldsOn("yield-seed")
 		r.Count("requests_made_together")
 	}
+	// in one run of three some targets are slow to accept: the connect made for a channel is held for 1-15 s
+	// (longer than any of the others takes), so connects for different channels finish in another order than
+	// they were started in, or long after the next request has been made
+	if c.Chance(1, 3, "slow-targets") {
+		for i := range table {
+			if !c.Chance(1, 2, "slow-target") {
+				continue
+			}
+			addr := fmt.Sprintf("%s:%d", TargetIP, 7001+i)
+			hold := time.Duration(1+c.Pick(15, "hold-s")) * time.Second
+			r.Net.SetDialFate("tcp", addr, 2) // held
+			r.Count("slow_targets")
+			go func() {
+				time.Sleep(hold)
+				r.Net.SetDialFate("tcp", addr, 0)
+			}()
+		}
+	}
 	out := r.Drive(pol, goal, extra, 60*time.Second, 20*time.Minute)
 	r.YieldsOff()
 	if out == Aborted {
